@@ -15,6 +15,7 @@ import (
 	"text/template"
 
 	"go.uber.org/cff/internal/modifier"
+	"go.uber.org/multierr"
 	"golang.org/x/tools/go/ast/astutil"
 	"golang.org/x/tools/go/types/typeutil"
 )
@@ -31,6 +32,11 @@ type generatorv2 struct {
 
 	// File path to which generated code is written.
 	outputPath string
+
+	// Position of the directive being generated, and the errors noted for
+	// types that the code generated for it cannot refer to by name.
+	usePos     token.Pos
+	unnameable map[string]error
 }
 
 func newGeneratorV2(opts generatorOpts) *generatorv2 {
@@ -103,6 +109,7 @@ func (g *generatorv2) GenerateFile(f *file) error {
 	// At the bottom of the file, generate the type definitions and modifier function
 	// bodies.
 	for _, mod := range fileModifiers {
+		g.usePos = mod.Expr().Pos()
 		if err := mod.GenImpl(modifier.GenParams{
 			Writer:  &buff,
 			FuncMap: g.funcMap(f, addImports, aliases),
@@ -112,6 +119,9 @@ func (g *generatorv2) GenerateFile(f *file) error {
 
 		// Insert a newline and space between each modifier generation.
 		buff.Write([]byte("\n\n"))
+	}
+	if err := g.unnameableTypes(); err != nil {
+		return err
 	}
 
 	// Parse the generated file and clean up.
@@ -189,6 +199,14 @@ func (g *generatorv2) posInfo(n ast.Node) *PosInfo {
 // type refers to a package that is not already imported
 func (g *generatorv2) typePrinter(f *file, addImports map[string]string, aliases map[string]struct{}) func(types.Type) string {
 	return func(t types.Type) string {
+		// Modifier functions are generated at the top level of the file.
+		errs := unnameableTypes(t, g.pkg, g.usePos, true /* packageScope */, g.fset)
+		if len(errs) > 0 && g.unnameable == nil {
+			g.unnameable = make(map[string]error)
+		}
+		for name, err := range errs {
+			g.unnameable[name] = err
+		}
 		return types.TypeString(t, func(pkg *types.Package) string {
 			for _, imp := range f.AST.Imports {
 				ip, _ := strconv.Unquote(imp.Path.Value)
@@ -216,6 +234,21 @@ func (g *generatorv2) typePrinter(f *file, addImports map[string]string, aliases
 			return ""
 		})
 	}
+}
+
+// unnameableTypes reports the errors noted by the type printer, in a stable
+// order.
+func (g *generatorv2) unnameableTypes() error {
+	names := make([]string, 0, len(g.unnameable))
+	for name := range g.unnameable {
+		names = append(names, name)
+	}
+	sort.Strings(names)
+	var err error
+	for _, name := range names {
+		err = multierr.Append(err, g.unnameable[name])
+	}
+	return err
 }
 
 func (g *generatorv2) typeID(t types.Type) int {
